@@ -3,6 +3,7 @@
 package mgmt
 
 import (
+	"fmt"
 	"os"
 	"path/filepath"
 	"strings"
@@ -79,6 +80,14 @@ func TestCorpusGen(t *testing.T) {
 			mk("strategy-choice/unset", 3, cmdName("localhost", "strategy-choice", "unset", &mgmt.ControlArgs{Name: ab})),
 			list("rib", "list"), list("fib", "list"), list("strategy-choice", "list"), list("cs", "info"), list("faces", "list"), list("status", "general")}},
 	}
+	// more routes than one 8000-byte segment holds: rib/list and fib/list go unanswered (known finding), nothing crashes
+	big := &caseSpec{faces: facePool[0]}
+	for i := 0; i < 200; i++ {
+		n, _ := enc.NameFromStr(fmt.Sprintf("/big/prefix/number/%04d", i))
+		big.cmds = append(big.cmds, mk("rib/register", 3, cmdName("localhost", "rib", "register", &mgmt.ControlArgs{Name: n})))
+	}
+	big.cmds = append(big.cmds, list("rib", "list"), list("fib", "list"), list("strategy-choice", "list"), list("status", "general"))
+	cases["10-large-datasets"] = big
 	os.MkdirAll(dir, 0o755)
 	for name, cs := range cases {
 		if err := os.WriteFile(filepath.Join(dir, name+".ops"), []byte(strings.Join(cs.opsText(), "\n")+"\n"), 0o644); err != nil {
